@@ -29,6 +29,10 @@ def _replay(beh):
                      ("op.solve(matrix, left factor)", lambda: op.solve(B["mat"], B["lhs"]), B["lhs"].to(torch.float64) @ X["mat"]),
                      ("torch.linalg.solve(op, matrix)", lambda: torch.linalg.solve(op, B["mat"]), X["mat"]),
                      ("linear_operator.solve(op, matrix)", lambda: linear_operator.solve(op, B["mat"]), X["mat"])]
+            if beh["term"]["cls"] in ("Chol", "Tri", "Diag", "ConstDiag", "Identity", "KronTri", "KronDiag") and not beh.get("big"):
+                # classes that offer inverse(): the inverse operator must act as A^-1 and its own solve must give back A B
+                calls += [("op.inverse() @ matrix", lambda: op.inverse() @ B["mat"], X["mat"]),
+                          ("op.inverse().solve(matrix)", lambda: op.inverse().solve(B["mat"]), A @ B["mat"].to(torch.float64))]
             for c in calls:
                 if c is None:
                     continue
